@@ -4,7 +4,7 @@ use std::sync::atomic::{AtomicBool, AtomicPtr, AtomicU64, Ordering};
 use std::sync::Arc;
 
 use parking_lot::Mutex;
-use tokio::sync::{oneshot, Semaphore};
+use tokio::sync::{oneshot, OwnedSemaphorePermit, Semaphore};
 
 use crate::batch::Batch;
 use crate::error::{Error, Result};
@@ -39,16 +39,27 @@ struct CommitBatch {
 	count: u32, // Number of entries in the batch
 	applied: AtomicBool,
 	complete_tx: Mutex<Option<oneshot::Sender<Result<()>>>>,
+	// Flow-control permit of this commit. It lives as long as the batch does,
+	// i.e. until the batch has left `pending`: a commit whose log append or
+	// apply failed returns to its caller while its (already marked) batch may
+	// still sit in the queue behind an unapplied one, and must keep occupying
+	// its slot until then - otherwise new commits are admitted on top of it and
+	// the fixed-size queue overflows.
+	_permit: OwnedSemaphorePermit,
 }
 
 impl CommitBatch {
-	fn new(count: u32) -> (Arc<Self>, oneshot::Receiver<Result<()>>) {
+	fn new(
+		count: u32,
+		permit: OwnedSemaphorePermit,
+	) -> (Arc<Self>, oneshot::Receiver<Result<()>>) {
 		let (tx, rx) = oneshot::channel();
 		let commit = Arc::new(Self {
 			seq_num: AtomicU64::new(0),
 			count,
 			applied: AtomicBool::new(false),
 			complete_tx: Mutex::new(Some(tx)),
+			_permit: permit,
 		});
 		(commit, rx)
 	}
@@ -267,11 +278,14 @@ impl CommitPipeline {
 		self.write_stall.check().await?;
 
 		// Acquire permit for flow control
-		let _permit = self.commit_sem.acquire().await.map_err(|_| Error::PipelineStall)?;
+		let permit = Arc::clone(&self.commit_sem)
+			.acquire_owned()
+			.await
+			.map_err(|_| Error::PipelineStall)?;
 		#[cfg(surrealkv_verif)]
 		crate::verif::gate("commit.permit", &[("start", start_seq)]);
 
-		let (commit_batch, complete_rx) = CommitBatch::new(batch.count());
+		let (commit_batch, complete_rx) = CommitBatch::new(batch.count(), permit);
 
 		// === CRITICAL SECTION under write_mutex ===
 		//
